@@ -296,7 +296,7 @@ def run(F, R, tier):
     for nm, op in (("compile_if_expression", "JumpIfFalse"), ("compile_filter_statement", "JumpIfFalseNoPop")):
         g = F.fn(C + nm)
         if R.anchor(C + nm, g):
-            ev = E.all_emits(H.body_of(g))
+            ev = E.all_emits(H.normal(F, H.body_of(g), keep=("emit", "compile_expression", "compile_block_statement", "patch_jump", nm, "compile_statement")))
             jumps = [e for e in ev if e.startswith("JumpIfFalse")]
             R.ob("conditional-opcode", nm, jumps == [op], "conditional jumps emitted: %s" % jumps, F.loc(g))
     cs = F.fn(C + "compile_statement")
@@ -305,5 +305,5 @@ def run(F, R, tier):
             if mm.get("k") == "match" and not H.is_try(mm):
                 for a in mm["arms"]:
                     if "While" in {H.last(v) for v in H.pat_variants(a["pat"])}:
-                        ev = [e for e in E.all_emits(a["body"]) if e.startswith("JumpIfFalse")]
+                        ev = [e for e in E.all_emits(H.normal(F, a["body"], keep=("emit", "compile_expression", "compile_block_statement", "patch_jump", "compile_if_expression", "compile_statement"))) if e.startswith("JumpIfFalse")]
                         R.ob("conditional-opcode", "while", ev == ["JumpIfFalse"], "conditional jumps emitted: %s" % ev, F.loc(cs, a.get("line")))
